@@ -40,6 +40,9 @@ type cell struct {
 	Label       string
 	SlowUpgrade time.Duration
 	SlowPolling time.Duration
+	// Early: the client's emitters start before Connect() is called, so that several goroutines are inside
+	// Emit while the CONNECT reply is processed and the offline buffer is flushed
+	Early bool
 }
 
 func (c cell) id() string {
@@ -121,8 +124,8 @@ type onEventer interface {
 func main() {
 	run := vk.Start("C01", "exploration")
 	run.Rule("matrix cells {polling, websocket, polling->websocket with emission through the swap} x {recovery off,on} x {c2s,s2c} x 1..3 clients x {1,4,16} emitting goroutines; " +
-		"every emission = (unique id, one argument of a registry shape, size class); distinct = (transport, recovery, direction, shape, size class) cells that actually carried >= 1 delivered event")
-	run.Assume("events are emitted only while both sides report connected and handlers are registered (connection handler finished)",
+		"cells whose client emitters start before Connect() (2/8/16 goroutines inside Emit while the CONNECT reply is processed); two handlers per event name; every emission = (unique id, one argument of a registry shape, size class); distinct = (transport, recovery, direction, shape, size class) cells that actually carried >= 1 delivered event")
+	run.Assume("except in the across-connect cells, events are emitted only while both sides report connected and handlers are registered (connection handler finished)",
 		"handler signatures match the emitted static types; canonical digest normalises JSON number formatting and map order",
 		"loss is concluded 30 s after a wire fence acked on the same connection (normal latency: milliseconds)")
 
@@ -132,10 +135,13 @@ func main() {
 		}
 		run.Finish()
 	}
+	var slow time.Duration
 	for _, c := range cells(run, false) {
+		t0 := time.Now()
 		runCell(run, c)
-		if run.Violations() > 60 {
-			run.Logf("stopping early: many violations")
+		slow += time.Since(t0) / (30 * time.Second) // cells that ran into the loss watchdogs
+		if run.Violations() > 60 || (run.Violations() > 3 && slow >= 3) {
+			run.Logf("stopping early: %d violations, %d watchdog periods spent", run.Violations(), slow)
 			break
 		}
 	}
@@ -183,6 +189,12 @@ func cells(run *vk.Run, race bool) []cell {
 				Sizes: []int{1, 40, 300, 5000}, Dirs: []string{"c2s", "s2c"}, Shapes: []string{"Binary", "S6", "map-bin", "[]Binary", "int"},
 				Label: fmt.Sprintf("late-poll-at-swap-%d", rep), SlowPolling: time.Duration(1+rep%3) * time.Millisecond})
 		}
+	}
+	// emitters running across the connect: what was emitted before, during and after the flush of the
+	// offline buffer must all arrive
+	for rep := 0; rep < run.Pick(12, 60); rep++ {
+		out = append(out, cell{Transports: transports[rep%3], Recovery: rep%2 == 1, Clients: 1, Emitters: []int{2, 8, 16}[rep%3], PerEmitter: run.Pick(400, 1500),
+			Sizes: []int{1, 40}, Dirs: []string{"c2s"}, Shapes: []string{"int", "string", "Binary", "S2"}, Label: fmt.Sprintf("across-connect-%d", rep), Early: true})
 	}
 	if race {
 		return out
@@ -391,6 +403,9 @@ func runCell(run *vk.Run, c cell) {
 		OnClientSocket: func(idx int, cs sio.ClientSocket) {
 			register(cs, recs[idx][1], "s2c", idx)
 			cs.OnEvent("fence", func(ack func()) { ack() })
+			if c.Early && hasDir("c2s") {
+				startEmitters(idx, "c2s", cs.Emit) // before Connect()
+			}
 			cs.OnEvent("ready", func(int) {
 				if hasDir("c2s") {
 					startEmitters(idx, "c2s", cs.Emit)
